@@ -59,7 +59,7 @@ var expectedProbes = map[string][]string{
 	"C09": {"fault_fired_panic-string", "fault_fired_panic-error", "fault_fired_panic-value", "fault_fired_runtime-error", "fault_fired_error-result",
 		"passed_unspecified_point", "control_flow_left_a_try_body", "uncaught_error_expected", "host_calls"},
 	"C01": {"fault_fired_panic-string", "fault_fired_panic-error", "fault_fired_panic-value", "fault_fired_runtime-error", "fault_fired_error-result",
-		"fault_fired_nil-func", "fault_fired_close-chan", "fault_fired_cancel", "fault_fired_panic-typed-nil-error", "fault_fired_panic-nil",
+		"fault_fired_nil-func", "fault_fired_close-chan", "fault_fired_cancel", "fault_fired_panic-typed-nil-error", "fault_fired_panic-nil", "fault_fired_panic-unhashable-error", "fault_fired_panic-unhashable-value",
 		"fault_with_script_goroutines", "ctx_mode_0", "ctx_mode_1", "ctx_mode_2", "spawn", "select"},
 }
 
